@@ -253,7 +253,7 @@ pub fn run(ctx: &Ctx) -> Report {
     let mut rep = Report::new(ID, "fault_enumeration", ctx);
     rep.rule = "Cases: grammar-generated mappings (padding present after classes / members / by-params in varying combinations, and absent). Canonical bytes = write into a Vec. Per mapping, sinks enumerated: accept <= k bytes per call for k=1..16; short exactly once at every call index i with shortened lengths {1,2,3,4,5,7,len/2,len-1} (all lengths for writes <= 64 bytes on every 8th mapping); fail with ErrorKind::Other at every call index; ErrorKind::Interrupted once at every call index; one short call followed by a failure at every later index; k-limited sinks with a failure. Oracle: Ok => accepted bytes == canonical; non-retryable sink failure => Err; always: accepted bytes are a prefix of canonical; Err without any sink fault is a violation. evaluations = sink runs. Non-trivial = distinct (mapping, sink) where the fault lands on or after the first padding call.".into();
     rep.assumptions = vec!["sinks obey the std::io::Write contract (never Ok(0) for a non-empty buffer)".into(), "an Interrupted that surfaces as Err is tolerated (the statement only forbids success with wrong bytes)".into()];
-    let n = ctx.cases(15_000, 200_000);
+    let n = ctx.cases(15_000, 600_000);
     rep.run_stage("ast", || map_case(&cfg()), n, check_case);
     rep.stats.exhaustive.push("per mapping: every call index for short-once / fail / interrupt sinks, k=1..16".into());
     rep
